@@ -49,14 +49,17 @@ Definition members (ops : list (xop Z)) : list xcomp := flat_map op_members ops.
    1  something emitted in the reused-and-scribbled run differs from the fresh run
    2  a component wrote into a caller buffer
    3  code 1 for a history through the outgoing-RTCP dumper (packetdump sender hands
-      the caller's []rtcp.Packet to the logger goroutine): known finding *)
+      the caller's []rtcp.Packet to the logger goroutine): known finding
+   4  code 1 for a history about the caller's attributes MAP through a component
+      modelled as keeping it (gcc leaky bucket pacer, packetdump): known finding *)
 Definition c13x_spec_code (k : c13x_case) : nat :=
   let '(kind, ops, outA, outB, wrote) := k in
   match wrote with
   | _ :: _ => 2%nat
   | [] => if existsb xexception (members ops) then 0%nat
           else if lleqb outA outB then 0%nat
-          else if existsb xknown_alias (members ops) then 3%nat else 1%nat
+          else if existsb xknown_alias (members ops)
+               then (if existsb xattr_role (members ops) then 4%nat else 3%nat) else 1%nat
   end.
 
 Definition c13x_spec_failures (cases : list c13x_case) : list (Z * Z) := find_codes c13x_spec_code cases 0.
@@ -74,7 +77,7 @@ Proof.
     + destruct (lleqb outA outB) eqn:E.
       * apply lleqb_eq in E. split; [intros _; split; [reflexivity|intros _; exact E]|reflexivity].
       * split.
-        -- destruct (existsb xknown_alias (members ops)); discriminate.
+        -- destruct (existsb xknown_alias (members ops)); [destruct (existsb xattr_role (members ops))|]; discriminate.
         -- intros [_ H]. specialize (H eq_refl). apply lleqb_eq in H. congruence.
   - split; [discriminate|]. intros [H _]. discriminate.
 Qed.
